@@ -149,7 +149,7 @@ alg_wrap_wrp(const jose_hook_alg_t *alg, jose_cfg_t *cfg, json_t *jwe,
         goto egress;
 
     ptl = jose_b64_dec(json_object_get(cek, "k"), NULL, 0);
-    if (ptl > sizeof(pt))
+    if (ptl == 0 || ptl > sizeof(pt))
         goto egress;
 
     if (jose_b64_dec(json_object_get(cek, "k"), pt, ptl) != ptl)
@@ -216,7 +216,7 @@ alg_wrap_unw(const jose_hook_alg_t *alg, jose_cfg_t *cfg, const json_t *jwe,
         goto egress;
 
     ctl = jose_b64_dec(json_object_get(rcp, "encrypted_key"), NULL, 0);
-    if (ctl > sizeof(ct))
+    if (ctl == 0 || ctl > sizeof(ct))
         goto egress;
 
     if (jose_b64_dec(json_object_get(rcp, "encrypted_key"), ct, ctl) != ctl)
